@@ -258,7 +258,9 @@ class SyncObj(object):
         self.__newAppendEntriesTime = 0
 
         self.__commandsWaitingCommit = collections.defaultdict(list)  # logID => [(termID, callback), ...]
-        self.__commandsLocalCounter = 0
+        # Request ids of forwarded commands start at a random value: a reply addressed to a previous
+        # incarnation of this node (same address, restarted) must not match a request of this one.
+        self.__commandsLocalCounter = random.getrandbits(48)
         self.__commandsWaitingReply = {}  # commandLocalCounter => callback
 
         self.__properies = set()
